@@ -100,7 +100,7 @@ pub fn run(ctx: &Ctx) {
         jobs.len(),
         |i| {
             // quick: a third of the matrix, chosen by the seed
-            if (i as u64 + ctx.seed) % per != 0 {
+            if ((i as u64).wrapping_mul(0x9E37_79B9_7F4A_7C15).rotate_left(17) ^ ctx.seed.wrapping_mul(0xD6E8_FEB8_6659_FD93)) % per != 0 {
                 return;
             }
             let (t, w, f, m) = jobs[i];
